@@ -508,6 +508,48 @@ def _mod(a, b):
 # obligations
 
 
+def finite_expand(e, uni, _cache=None):
+    """Expand quantifiers over the given uninterpreted sorts into finite conjunctions/disjunctions over `uni[sort]`
+    (the universe of each such sort is taken to be exactly those constants, which may coincide). A model of the
+    expansion is a finite model of the original formula: uninterpreted sorts admit any non-empty universe."""
+    if _cache is None:
+        _cache = {}
+    key = e.get_id()
+    if key in _cache:
+        return _cache[key]
+    if z3.is_quantifier(e):
+        n = e.num_vars()
+        sorts = [e.var_sort(i) for i in range(n)]
+        if all(any(srt.eq(u) for u in uni) for srt in sorts):
+            import itertools
+
+            doms = []
+            for srt in sorts:
+                for u, cs in uni.items():
+                    if srt.eq(u):
+                        doms.append(cs)
+            insts = []
+            for combo in itertools.product(*doms):
+                # substitute_vars: var index 0 is the innermost (last) bound variable
+                body = z3.substitute_vars(e.body(), *reversed(combo))
+                insts.append(finite_expand(body, uni, _cache))
+            r = z3.And(*insts) if e.is_forall() else z3.Or(*insts)
+        else:
+            r = e
+        _cache[key] = r
+        return r
+    if z3.is_app(e) and e.num_args() > 0:
+        kids = [finite_expand(ch, uni, _cache) for ch in e.children()]
+        if any(not a.eq(b) for a, b in zip(kids, e.children())):
+            r = e.decl()(*kids)
+        else:
+            r = e
+        _cache[key] = r
+        return r
+    _cache[key] = e
+    return e
+
+
 class _SatNoModel:
     """cvc5 answered sat (no model is imported): compares unequal to z3.sat/unsat/unknown."""
 
@@ -776,7 +818,29 @@ class PathCtx:
             cm = {k_: v_ for k_, v_ in cm.items() if k_ in self.symvars}
             ob = Obligation(name, kind, "failed", "cvc5", dt, model=cm, where=where, detail=detail)
         else:
-            ob = Obligation(name, kind, "unknown", "z3+cvc5", dt, where=where, detail=detail)
+            ob = None
+            # quantified hypotheses over uninterpreted sorts: look for a counter-model in a small finite universe
+            # (a finite interpretation of an uninterpreted sort is a legitimate model, so `sat` here is a genuine
+            # counterexample to the verification condition)
+            for k in (3, 4) if getattr(self, "finite_sorts", None) else ():
+                uni = {srt: [z3.Const(f"{srt.name()}_u{j}", srt) for j in range(k)] for srt in self.finite_sorts}
+                s3 = z3.Solver()
+                s3.set("timeout", 20000)
+                try:
+                    for a_ in self.solver.assertions():
+                        s3.add(finite_expand(a_, uni))
+                    s3.add(finite_expand(z3.Not(term), uni))
+                    r2 = s3.check()
+                except z3.Z3Exception:
+                    r2 = z3.unknown
+                if r2 == z3.sat:
+                    m2 = s3.model()
+                    md = self.model_dict(m2)
+                    md["_finite_universe"] = k
+                    ob = Obligation(name, kind, "failed", f"z3-finite-model({k})", time.time() - t0, model=md, where=where, detail=detail)
+                    break
+            if ob is None:
+                ob = Obligation(name, kind, "unknown", "z3+cvc5", time.time() - t0, where=where, detail=detail)
         self.obligations.append(ob)
         if assume_after:
             self.solver.add(term)
